@@ -17,7 +17,8 @@ FAMILIES = ('audit',)
 RULE = ('each run = generated tree + prior Manifest state (absent/exact/stale sizes+digests/vanished/missing/'
         'duplicate entries/unregistered valid or invalid Manifests/several Manifests per directory/compressed) '
         '+ 1-4 rounds of (edits; update with drawn hash set, profile, sort, force, watermark/format, whole tree '
-        'or sub-directory, library or CLI) with permuted directory listings; after every successful update the '
+        'or sub-directory, library or CLI, sometimes on the loader object of the previous round) with permuted directory listings, permuted '
+        'worker-pool completion order and (half of the runs) short raw reads; after every successful update the '
         'on-disk auditor, a fresh gemato verification and the reference verifier are evaluated; non-trivial = at '
         'least one update succeeded on a prior state that was not already exact; distinct = distinct seam '
         'event-log digest')
